@@ -41,7 +41,7 @@ var slVersions = []uint64{0, 1, 2, 3, 4, 5, 6, 7, 8, 9, 10, 11, 12, 99, 100, 1 <
 
 func genSLCase(t *rapid.T) slCase {
 	c := slCase{
-		MaxLevel: rapid.IntRange(1, 16).Draw(t, "maxLevel"),
+		MaxLevel: rapid.OneOf(rapid.IntRange(1, 16), rapid.SampledFrom([]int{1, 2, 17, 32, 33, 64})).Draw(t, "maxLevel"),
 		P:        rapid.SampledFrom([]float64{0.01, 0.1, 0.25, 0.5, 0.75, 0.9, 0.99}).Draw(t, "p"),
 		Seed:     rapid.Int64().Draw(t, "seed"),
 	}
@@ -54,6 +54,15 @@ func genSLCase(t *rapid.T) slCase {
 	ver := rapid.OneOf(rapid.Uint64Range(0, 12), rapid.SampledFrom(slVersions))
 	val := rapid.OneOf(rapid.Just(""), rapid.StringN(0, 6, 12))
 	n := rapid.IntRange(1, 70).Draw(t, "nops")
+	if rapid.IntRange(0, 19).Draw(t, "long") == 0 {
+		// now and then a long history over a wider universe (hundreds of live entries, tall towers)
+		n = rapid.IntRange(300, 1500).Draw(t, "nopsLong")
+		for i := 0; i < 30; i++ {
+			keys = append(keys, rapid.SampledFrom(vlib.Pool).Draw(t, "poolkey2"))
+		}
+		key = rapid.SampledFrom(keys)
+		ver = rapid.OneOf(rapid.Uint64Range(0, 60), rapid.SampledFrom(slVersions))
+	}
 	for i := 0; i < n; i++ {
 		o := slOp{Op: rapid.SampledFrom([]string{"set", "set", "set", "set", "get", "lower", "lower", "scan", "all", "delete", "reset"}).Draw(t, "op")}
 		if o.Op == "reset" && rapid.IntRange(0, 9).Draw(t, "resetRare") != 0 {
